@@ -91,6 +91,8 @@ json.dump({'note': 'qualified names of the top-level functions and methods at /r
                    'function outside this list is new and is inlined into its callers before '
                    'the rules run (stonelint/inline.py)',
            'functions': sorted(ft),
+           'params': {q: [x.arg for x in v[0].args.posonlyargs + v[0].args.args]
+                      for q, v in sorted(ft.items())},
            'constants': {name: sorted(st.targets[0].id for st in m.tree.body
                                       if isinstance(st, ast.Assign) and len(st.targets) == 1 and
                                       isinstance(st.targets[0], ast.Name))
